@@ -103,9 +103,17 @@ func b64(s string) string { return base64.StdEncoding.EncodeToString([]byte(s)) 
 
 func genCreds(r *lib.RNG, c *conf) credCase {
 	right := "Basic " + b64(c.user+":"+c.pass)
-	switch r.Intn(22) {
+	switch r.Intn(24) {
 	case 0, 1, 2, 3, 4:
 		return credCase{name: "right", header: []string{right}, ok: true}
+	case 22, 23:
+		// the right credentials with white space (or NUL) before the user name or after the
+		// password inside the encoded text: a different user / password
+		ws := lib.Pick(r, []string{" ", "\t", "\n", "\r\n", "\r", "  ", "\x00", "\v", "\f", "\u00a0"})
+		if r.Bool() {
+			return credCase{name: "edge-whitespace", header: []string{"Basic " + b64(ws+c.user+":"+c.pass)}}
+		}
+		return credCase{name: "edge-whitespace", header: []string{"Basic " + b64(c.user+":"+c.pass+ws)}}
 	case 5:
 		return credCase{name: "absent"}
 	case 6:
@@ -482,7 +490,7 @@ func (q *reqSpec) raw(r *lib.RNG, scheme string) []byte {
 }
 
 func main() {
-	run := lib.Start("C04", "generated configurations (basic-auth on/off with passwords containing ':' '@' or empty; deny-domains include/exclude lists; proxy-localhost deny/allow; allow-time-frame off/covers now/excludes now; upstream proxy; MITM; generated hosts file with mixed-case and IPv6 loopback aliases) x generated requests (GET/POST/PUT/HEAD/DELETE/CONNECT, origin/absolute form, HTTP/1.0 and 1.1, 20 credential variants (incl. the colon moved inside user+password, the base64 text in another letter case), denied names in any case, 13 loopback/unspecified literals, hosts aliases in any case, with/without port, several requests per keep-alive connection, inner requests of MITM'd tunnels); reference decision function + dial log + accept/byte ledgers of every scripted peer; distinct = (config controls, method, host class, credential variant, position, inner) signatures")
+	run := lib.Start("C04", "generated configurations (basic-auth on/off with passwords containing ':' '@' or empty; deny-domains include/exclude lists; proxy-localhost deny/allow; allow-time-frame off/covers now/excludes now; upstream proxy; MITM; generated hosts file with mixed-case and IPv6 loopback aliases) x generated requests (GET/POST/PUT/HEAD/DELETE/CONNECT, origin/absolute form, HTTP/1.0 and 1.1, 21 credential variants (incl. white space before the user name or after the password inside the encoded text, the colon moved inside user+password, the base64 text in another letter case), denied names in any case, 13 loopback/unspecified literals, hosts aliases in any case, with/without port, several requests per keep-alive connection, inner requests of MITM'd tunnels); reference decision function + dial log + accept/byte ledgers of every scripted peer; distinct = (config controls, method, host class, credential variant, position, inner) signatures")
 	root := run.RNG()
 	// The whole process runs in a local zone with a non-whole-hour offset, chosen so that the
 	// local wall clock is a few minutes past the hour (no hour roll-over during the run) while
